@@ -34,6 +34,7 @@ func (g *Gen) register() {
 	g.add("update_sell", g.genUpdateSell)
 	g.add("cancel_sell", g.genCancelSell)
 	g.add("buy", g.genBuy)
+	g.add("basket_token_market", g.genBasketTokenMarket)
 	g.add("allowed_denom", g.genAllowedDenom)
 	g.add("fee_params", g.genFeeParams)
 	g.add("fee_pool_send", g.genFeePoolSend)
@@ -610,6 +611,19 @@ func (g *Gen) genBuy() *eng.Tx {
 	}
 	seller := obs.Addr(o.Seller)
 	buyer := g.otherActor(seller)
+	if mk0 := g.V.Markets[o.MarketId]; mk0 != nil && g.chance(0.5) {
+		// prefer the richest actor in the order's ask denom (basket tokens and scarce denoms are
+		// held by few accounts)
+		best := new(big.Int)
+		for _, a := range g.A {
+			if a == seller {
+				continue
+			}
+			if b := g.S.BankOf(a, mk0.BankDenom); b.Cmp(best) > 0 {
+				best, buyer = b, a
+			}
+		}
+	}
 	if g.hostile() && g.chance(0.1) {
 		buyer = seller
 	}
@@ -764,6 +778,10 @@ func (g *Gen) genBuy() *eng.Tx {
 
 func (g *Gen) genAllowedDenom() *eng.Tx {
 	d := g.bankDenom()
+	// basket tokens are bank denoms too: governance may allow them as ask denoms
+	if len(g.V.BasketList) > 0 && g.chance(0.25) {
+		d = g.V.BasketList[g.R.Intn(len(g.V.BasketList))].BasketDenom
+	}
 	if g.chance(0.65) {
 		return tx(&markettypes.MsgAddAllowedDenom{Authority: g.govSigner(), BankDenom: d, DisplayDenom: strings.TrimPrefix(d, "u"), Exponent: 6})
 	}
@@ -911,4 +929,73 @@ func (g *Gen) genRegisterResolver() *eng.Tx {
 		m.ContentHashes = append(m.ContentHashes, g.contentHash())
 	}
 	return tx(m)
+}
+
+// genBasketTokenMarket: basket tokens used as a marketplace ask denomination — governance allows a
+// basket denom, a holder sells credits priced in it, a basket-token holder buys (fees are then paid
+// in basket tokens, which must stay fully backed).
+func (g *Gen) genBasketTokenMarket() *eng.Tx {
+	if len(g.V.BasketList) == 0 {
+		return nil
+	}
+	var allowed []string
+	for _, bk := range g.V.BasketList {
+		if g.V.AllowedDenoms[bk.BasketDenom] != nil {
+			allowed = append(allowed, bk.BasketDenom)
+		}
+	}
+	if len(allowed) == 0 || g.chance(0.1) {
+		bk := g.V.BasketList[g.R.Intn(len(g.V.BasketList))]
+		return tx(&markettypes.MsgAddAllowedDenom{Authority: g.Gov, BankDenom: bk.BasketDenom, DisplayDenom: "eco." + bk.CreditTypeAbbrev + "." + bk.Name, Exponent: 6})
+	}
+	// an open order priced in basket tokens?
+	var orders []*marketapi.SellOrder
+	for _, o := range g.V.OrderList {
+		if mk := g.V.Markets[o.MarketId]; mk != nil && strings.HasPrefix(mk.BankDenom, "eco.") {
+			orders = append(orders, o)
+		}
+	}
+	if len(orders) == 0 || g.chance(0.35) {
+		h := g.holding()
+		if h == nil || h.T.Sign() <= 0 {
+			return nil
+		}
+		b := g.V.Batches[h.Row.BatchKey]
+		if b == nil {
+			return nil
+		}
+		g.quiet = true
+		defer func() { g.quiet = false }()
+		c := g.coin(allowed[g.R.Intn(len(allowed))], big.NewInt(int64(1+g.R.Intn(5000))))
+		return tx(&markettypes.MsgSell{Seller: obs.Addr(h.Row.Address), Orders: []*markettypes.MsgSell_Order{{BatchDenom: b.Denom, Quantity: g.amountUpTo(new(big.Rat).Quo(h.T, big.NewRat(5, 1))), AskPrice: &c, DisableAutoRetire: true}}})
+	}
+	o := orders[g.R.Intn(len(orders))]
+	mk := g.V.Markets[o.MarketId]
+	ask, ok := new(big.Int).SetString(o.AskAmount, 10)
+	q := ref.MustDec(o.Quantity)
+	if !ok || q == nil {
+		return nil
+	}
+	buyer, best := "", new(big.Int)
+	for _, a := range g.A {
+		if a != obs.Addr(o.Seller) {
+			if bal := g.S.BankOf(a, mk.BankDenom); bal.Cmp(best) > 0 {
+				best, buyer = bal, a
+			}
+		}
+	}
+	if buyer == "" {
+		return nil
+	}
+	// buy what the buyer can afford (at most the whole order)
+	afford := new(big.Rat).Quo(new(big.Rat).SetInt(best), new(big.Rat).Mul(new(big.Rat).SetInt(ask), big.NewRat(2, 1)))
+	if afford.Cmp(q) > 0 {
+		afford = q
+	}
+	g.quiet = true
+	qty := g.amountUpTo(afford)
+	g.quiet = false
+	bid := g.coin(mk.BankDenom, ask)
+	mf := g.coin(mk.BankDenom, best)
+	return tx(&markettypes.MsgBuyDirect{Buyer: buyer, Orders: []*markettypes.MsgBuyDirect_Order{{SellOrderId: o.Id, Quantity: qty, BidPrice: &bid, DisableAutoRetire: true, MaxFeeAmount: &mf}}})
 }
